@@ -1,9 +1,9 @@
 """C12 obligations: the crate's own TLS-or-plaintext decisions (client transport)."""
 import z3
 
-from inputs import ev, sym_uri, uri_scenario
+from inputs import authority_text, ev, sym_authority, sym_uri, uri_scenario
 from interp import Agg, Cell, Enum, Inconclusive, Opaque, Ref, UNIT
-from models import HeaderMapV, MODELS, DOC, TlsConnectV, bare_host, deref, model, valid_server_name
+from models import HeaderMapV, HeaderValueV, MODELS, DOC, TlsConnectV, bare_host, deref, model, valid_server_name
 
 
 class TransportV:
@@ -35,11 +35,25 @@ def judge_call(scn, out):
         return True
     if "input_error" in out or "authority" not in scn:
         return None
+    if "server name" in scn.get("claim", ""):
+        return judge_server_name(scn, out)
     want_tls = str(scn.get("tls_configured", 1)) != "0" and scn.get("scheme") in ("https", "wss")
     got = out.get("stream")
     if want_tls:
         return got == "plain"
     return got in ("tls", "tls-handshake-pending")
+
+
+def judge_server_name(scn, out):
+    """the name the peer sees in the ClientHello must be the URI host (rustls sends no SNI for IP literals)"""
+    from inputs import parse_authority
+    if "sni" not in out:
+        return None
+    host, _port = parse_authority(scn.get("authority", "").split("@")[-1])
+    import re as _re
+    is_ip = host.startswith("[") or _re.fullmatch(r"\d+\.\d+\.\d+\.\d+", host) is not None
+    want = "none" if is_ip else host.lower()
+    return out["sni"].lower() != want
 
 
 HOSTLEN = [3]
@@ -51,10 +65,27 @@ def obligations(prog, src, tier, seed):
     f_call = prog.find_one(r"transport::<impl at src/client/conn/transport/mod\.rs:\d+:\d+: \d+:\d+>::call$", r"TlsTransport<")
     f_tls = prog.find_one(r"client::conn::stream::<impl at src/client/conn/stream/mod\.rs:\d+:\d+: \d+:\d+>::tls$")
 
+    def headers_of(ctx):
+        """the caller may have set a Host header naming any host: it must not influence the TLS decisions"""
+        hm = HeaderMapV()
+        ctx.hdr = None
+        if ctx.choose([(True, False), (True, True)], "caller-supplied Host header"):
+            hdr = sym_authority(ctx, "_hdr", 3)
+            ctx.hdr = hdr
+            hm.cell("host").v = HeaderValueV(hdr.as_str_model(ctx))
+        return hm
+
+    def scenario(p, m, extra=None):
+        scn = dict(extra or {})
+        scn.update(uri_scenario(m, p.ctx.u))
+        if getattr(p.ctx, "hdr", None) is not None:
+            scn["header.host"] = authority_text(m, p.ctx.hdr)
+        return scn
+
     def parts_of(ctx):
         u = sym_uri(ctx, maxlen=HOSTLEN[0])
         ctx.u = u
-        return Agg("struct:Parts", [z3.BitVec("method", 8), u, z3.BitVec("version", 8), HeaderMapV(), None])
+        return Agg("struct:Parts", [z3.BitVec("method", 8), u, z3.BitVec("version", 8), headers_of(ctx), None])
 
     def run_call(ctx):
         parts = parts_of(ctx)
@@ -108,7 +139,7 @@ def obligations(prog, src, tier, seed):
                           "transport::future::TransportBraidFuture::{from_plain,from_tls}"],
                 "bound": "every URI form (scheme in {none,http,https,ws,wss,ftp}), TLS configured yes/no",
                 "doc": "TLS future iff a TLS configuration exists and the scheme is https|wss; its server name is uri.host(); missing host => NoDomain error without connecting; otherwise plain",
-                "run": run_call, "check": check_call, "cex_extract": lambda p, m: dict({"family": "tls_connect", "tls_configured": int(p.ctx.tls)}, **uri_scenario(m, p.ctx.u)),
+                "run": run_call, "check": check_call, "cex_extract": lambda p, m: scenario(p, m, {"family": "tls_connect", "tls_configured": int(p.ctx.tls)}),
                 "judge": judge_call})
 
     # ---- the server name is usable for every syntactically valid host ----------------------------------
@@ -120,7 +151,7 @@ def obligations(prog, src, tier, seed):
         ctx.assume(u.has_scheme)
         # what TlsConnectionFuture::poll does once the transport is connected:
         #   ClientStream::new(stream).tls(domain, config)      with domain = the host stored by call()
-        parts = Agg("struct:Parts", [z3.BitVec("method", 8), u, z3.BitVec("version", 8), HeaderMapV(), None])
+        parts = Agg("struct:Parts", [z3.BitVec("method", 8), u, z3.BitVec("version", 8), headers_of(ctx), None])
         t = TransportV()
         tt = Agg("struct:TlsTransport", [Enum("InnerBraid", "Tls", 1, [Agg("struct:TlsTransportWrapper", [t, Opaque("Arc<ClientConfig>")])])])
         fut = ctx.exec_fn(f_call, [Ref(Cell(tt, "transport")), parts])
@@ -158,14 +189,12 @@ def obligations(prog, src, tier, seed):
         return props
 
     def extract_domain(p, m):
-        scn = {"family": "tls_connect"}
-        scn.update(uri_scenario(m, p.ctx.u))
-        return scn
+        return scenario(p, m, {"family": "tls_connect"})
 
     obs.append({"name": "c12_tls_server_name_for_every_host", "family": "tls_server_name",
                 "funcs": ["<TlsTransportWrapper<T> as Service<request::Parts>>::call", "client::conn::stream::Stream::tls", "client::conn::stream::tls::TlsStream::new"],
                 "bound": "hosts: reg-names <= 3 (quick) / 5 (thorough) chars over [a-z0-9.-] and bracketed IPv6 literals of the same length; scheme https|wss",
                 "doc": "for every syntactically valid URI host the TLS stream is built without panicking and the server name is the URI host (IPv6 without brackets)",
                 "run": run_domain, "check": check_domain, "cex_extract": extract_domain,
-                "judge": lambda scn, out: out.get("result", "").startswith("panic")})
+                "judge": lambda scn, out: True if out.get("result", "").startswith("panic") else (judge_server_name(scn, out) if "server name" in scn.get("claim", "") else False)})
     return obs
